@@ -17,7 +17,7 @@ Inductive g_arg :=
 | ACodeInfoPath                     (* code_info_breakpad_sym_lookup(m)? *)
 | AUnknown.
 (* the root it is joined onto *)
-Inductive g_root := RSymbolDir | RCacheDir | RServerUrl | RUnknown.
+Inductive g_root := RSymbolDir | RCacheDir | RTmpDir | RServerUrl | RUnknown.
 Record g_site := { s_file : string; s_fn : string; s_text : string; s_root : g_root; s_arg : g_arg; s_why : string }.
 
 Definition eval_builder (b : g_builder) (m : module_view) (k : kind) : option file_lookup :=
@@ -53,6 +53,20 @@ Definition known_root (r : g_root) : bool := match r with RUnknown => false | _ 
 Definition known_site (s : g_site) : bool := known_root (s_root s) && known_arg (s_arg s).
 (* the sites the obligation complains about (printed by Coq when it is not []) *)
 Definition unknown_sites (l : list g_site) : list g_site := filter (fun s => negb (known_site s)) l.
+
+(* ---- file system sinks: every call that opens / creates / removes / renames / probes a path ------------- *)
+Inductive g_path :=
+| PRoot (r : g_root)                  (* a root itself (a symbol directory, self.cache, self.tmp) *)
+| PJoined (r : g_root) (a : g_arg)    (* the result of `<root>.join(<arg>)` *)
+| PUnknownPath.
+(* [k_paths]: the alternatives the path can come from (one per call site / returned value);
+   [k_parents]: how many `.parent()` are applied to it before the call *)
+Record g_sink := { k_file : string; k_fn : string; k_text : string; k_parents : nat; k_paths : list g_path; k_why : string }.
+Definition known_path (p : g_path) : bool :=
+  match p with PRoot r => known_root r | PJoined r a => known_root r && known_arg a | PUnknownPath => false end.
+Definition known_sink (k : g_sink) : bool :=
+  forallb known_path (k_paths k) && negb (match k_paths k with [] => true | _ => false end) && Nat.leb (k_parents k) 1.
+Definition unknown_sinks (l : list g_sink) : list g_sink := filter (fun k => negb (known_sink k)) l.
 
 (* fn names as bytes (Gen/C17Flow.v g_flow_table is the string-free copy of g_consumer_joins the driver uses) *)
 Definition bytes_of_string (s : string) : list Z :=
